@@ -137,6 +137,16 @@ def pending(st: Any, autos: Any, reverse: bool = False) -> Any:
     return None
 
 
+def not_left_to_user(ctx: Any, st: Any, op: str) -> None:
+    """an automated step is performed by the engine: it must never be pending for the user
+    (dealing steps wait for a manual burn, which is the documented exception)."""
+    auto = getattr(Automation, AUTOMATION_OF[op])
+    if auto in st.automations:
+        if op in ('deal_hole', 'deal_board') and st.card_burning_status:
+            return
+        ctx.fail('automated-step-left-to-the-user', lambda: f'{op} pending although {auto.name} is automated; last ops {[type(o).__name__ for o in st.operations[-4:]]}')
+
+
 def run_hand(ctx: Any, st: Any, script: str, reverse: bool, limit: int) -> None:
     k = 0
     steps = 0
@@ -154,6 +164,7 @@ def run_hand(ctx: Any, st: Any, script: str, reverse: bool, limit: int) -> None:
             op = pending(st, None, reverse)
             if op is None:
                 ctx.fail('stuck', lambda: f'hand not over, nothing available; last ops {[type(o).__name__ for o in st.operations[-4:]]}')
+            not_left_to_user(ctx, st, op)
             if op == 'select_runout_count':
                 # the players' choice: any preference is a legal operation
                 if st.player_count == 2:
@@ -237,6 +248,7 @@ def auto_play(ctx: Any, st: Any, script: str, limit: int) -> None:
             op = pending(st, None)
             if op is None:
                 ctx.fail('stuck')
+            not_left_to_user(ctx, st, op)
             C.call(ctx, getattr(st, op))
 
 
